@@ -145,7 +145,7 @@ fn cmd_check(args: &[String]) -> i32 {
         label: spec.label,
         wall_cap: Duration::from_secs(if tier == "thorough" { 3600 } else { 600 }),
         // hang detection only; C04's bulk-loaded runs execute multi-second joins five times over
-        run_timeout: Duration::from_secs(if prop == "C04" { 600 } else { 60 }),
+        run_timeout: Duration::from_secs(if prop == "C04" { 900 } else { 300 }),
         max_samples: 3,
     };
     let (p2, g2) = (prop.clone(), guards.clone());
